@@ -28,6 +28,14 @@ THEORIES = COQ / "theories"
 REPO = Path("/repo")
 SCRATCH = VERIF / ".scratch"
 
+# theory directories a property needs besides its own (build + hygiene scope)
+PROP_DIRS = {"C05": ["Common", "C11", "C05"], "C12": ["Common", "C11", "C12"]}
+
+
+def dirs_of(prop: str) -> list[str]:
+    return PROP_DIRS.get(prop, ["Common", prop])
+
+
 ALLOWED_AXIOMS: set[str] = set()  # none: every property theorem must be closed under the global context
 
 FORBIDDEN = re.compile(
